@@ -942,3 +942,28 @@ def the_old_socket_is_really_closed(ctx):
                           'to the discovery port and swallows part of the requests', f)
         return
     ctx.undecided(key, f.node, 'shutdown / close steps not recognised', f)
+
+
+@rule('C19.R7', min_instances=1)
+def a_refused_interface_is_never_announced(ctx):
+    """Server._interfaceThread: self.interfaces is what Server.run hands to the discovery responder as the list of ports to
+    announce.  An interface object that was constructed but is refused (unknown options: ConfigError) and closed again must not be
+    entered there: from the statement that raises / records that ConfigError the registration `self.interfaces[...] = ...` is not
+    reachable (flags and error variables bound on the way are followed)"""
+    m = ctx.m
+    f = m.method('frappy.server.Server', '_interfaceThread', inherited=False)
+    ctx.analysed(f)
+    cfg = CFG(f.node, m, f.module)
+    regs = [s_ for s_ in body_walk(f.node) if isinstance(s_, ast.Assign) and any(isinstance(t, ast.Subscript) and src(t.value) == 'self.interfaces' for t in s_.targets)]
+    refusals = [x for x in body_walk(f.node) if (isinstance(x, ast.Raise) and x.exc is not None and 'ConfigError' in src(x.exc)) or
+                (isinstance(x, ast.Assign) and isinstance(x.value, ast.Call) and 'ConfigError' in src(x.value.func))]
+    if not regs or not refusals:
+        raise AnchorMissing('registration in self.interfaces / the ConfigError for unknown options not found in Server._interfaceThread')
+    rids = {i for r in regs for i in cfg.ids(r)}
+    for x in refusals:
+        # (the exceptional edge of a raise leads to the handlers; the handlers of HEAD do not register anything)
+        reach = reach_with_flags(cfg, cfg.ids(x), avoid=[], exc=isinstance(x, ast.Raise))
+        hit = rids & (reach - set(cfg.ids(x)))
+        ctx.check(not hit, f'{f.qualname}:a refused interface is not registered', x, 'the registration is unreachable once the interface was refused',
+                  f'after `{src(x)[:80]}` the registration `{src(regs[0])}` is still reached: the refused (and closed) interface stays in self.interfaces and its '
+                  'port is announced by the start-up broadcast and in every discovery answer', f)
